@@ -125,6 +125,29 @@ def regex_match(I, pattern, method, args, node):
     return Top("regex match on a value of unknown shape", deps=I.leaves(text))
 
 
+def _dt(attr):
+    def get():
+        import datetime
+        obj = datetime
+        for part in attr.split("."):
+            obj = getattr(obj, part)
+        return obj
+    return get
+
+
+def _dateutil_parse():
+    import dateutil.parser
+    return dateutil.parser.parse
+
+
+FOLDABLE_TIME = {
+    "datetime.datetime": _dt("datetime"), "datetime.timedelta": _dt("timedelta"), "datetime.date": _dt("date"), "datetime.time": _dt("time"),
+    "datetime.datetime.strptime": _dt("datetime.strptime"), "datetime.datetime.combine": _dt("datetime.combine"),
+    "datetime.datetime.fromisoformat": _dt("datetime.fromisoformat"), "datetime.date.fromisoformat": _dt("date.fromisoformat"),
+    "dateutil.parser.parse": _dateutil_parse,
+}
+
+
 def call_lib(I, name, args, kwargs, node):
     a = args
     if name in ("hashlib.new", "hashlib.sha256", "hashlib.sha1", "hashlib.md5", "hashlib.sha512", "hashlib.blake2b"):
@@ -136,7 +159,7 @@ def call_lib(I, name, args, kwargs, node):
             else:
                 h = getattr(hashlib, name.split(".")[1])(*[x.v for x in a]) if all(isinstance(x, Const) for x in a) else None
         except Exception as e:
-            raise _Raise(f"{type(e).__name__} in {name}")
+            raise _Raise.of(e, name)
         if h is None:
             return Top(f"{name} of non-constant arguments")
         state = {"known": True}
@@ -345,6 +368,13 @@ def call_lib(I, name, args, kwargs, node):
             tag = f"np.{fn}[{dt.v if isinstance(dt, Const) else '?'}]" if dt is not None else f"np.{fn}"
             return tag_leaves(I, a[0], tag)
         return Top(f"{name}(...)", deps=[l for x in a for l in I.leaves(x)])
+    if (name.startswith("datetime.") or name.startswith("dateutil.")) and name in FOLDABLE_TIME and a is not None \
+            and all(isinstance(x, Const) for x in a) and all(isinstance(x, Const) for x in kwargs.values()) and (a or kwargs):
+        # pure date/time constructors and parsers on constants: folded by the library itself (trusted), never the package
+        try:
+            return Const(FOLDABLE_TIME[name]()(*[x.v for x in a], **{k: v.v for k, v in kwargs.items()}))
+        except Exception as e:
+            raise _Raise.of(e, name)
     if name.startswith("datetime.") or name.startswith("dateutil."):
         lv = [l for x in a for l in I.leaves(x)]
         if len(lv) >= 1 and all(l.src == lv[0].src for l in lv):
@@ -361,7 +391,7 @@ def call_lib(I, name, args, kwargs, node):
             try:
                 return Const(fn(*[x.v for x in a]))
             except Exception as e:
-                raise _Raise(f"{type(e).__name__} in {name}")
+                raise _Raise.of(e, name)
     if name.startswith("math."):
         return Top(f"{name}(...)", deps=[l for x in a for l in I.leaves(x)])
     if name in PURE_STDLIB and all(isinstance(x, Const) for x in a) and all(isinstance(x, Const) for x in kwargs.values()):
@@ -369,7 +399,7 @@ def call_lib(I, name, args, kwargs, node):
         try:
             return Const(PURE_STDLIB[name](*[x.v for x in a], **{k: v.v for k, v in kwargs.items()}))
         except Exception as e:
-            raise _Raise(f"{type(e).__name__} in {name}")
+            raise _Raise.of(e, name)
     return Top(f"library call {name}", deps=[l for x in a for l in I.leaves(x)])
 
 
@@ -798,12 +828,12 @@ def call_method(I, recv, name, args, kwargs, node):
             try:
                 return Const(getattr(recv.v, name)(*pyargs))
             except Exception as e:
-                raise _Raise(f"{type(e).__name__} in {name}")
+                raise _Raise.of(e, name)
         if all(isinstance(x, Const) for x in args) and all(isinstance(x, Const) for x in kwargs.values()):
             try:
                 return Const(getattr(recv.v, name)(*[x.v for x in args], **{k: v.v for k, v in kwargs.items()}))
             except Exception as e:
-                raise _Raise(f"{type(e).__name__} in {name}")
+                raise _Raise.of(e, name)
         if name == "join" and isinstance(recv.v, str):
             lv = [l for x in args for l in I.leaves(x)]
             if lv:
@@ -830,8 +860,11 @@ def call_method(I, recv, name, args, kwargs, node):
         groups = recv.fields["groups"]
         if name == "groupdict":
             return groups.copy()
-        if name == "group" and len(args) == 1 and isinstance(args[0], Const) and args[0].v in groups.items:
-            return groups.items[args[0].v]
+        if name == "group" and args and all(isinstance(x, Const) and x.v in groups.items for x in args):
+            vals = [groups.items[x.v] for x in args]
+            return vals[0] if len(vals) == 1 else TupS(vals)
+        if name == "group" and len(args) == 1 and isinstance(args[0], Const) and args[0].v == 0 and isinstance(recv.fields.get("text"), Leaf):
+            return recv.fields["text"]
         if name == "groups":
             return TupS(list(groups.items.values()))
         return Top(f"match.{name}")
